@@ -30,7 +30,7 @@ def q(name):
 QUICK = [
     fam("ops1", q("ops1")), fam("nums", q("nums")), fam("data", q("data")), fam("select", q("select")),
     fam("call", q("call")), fam("foppre", q("foppre")), fam("misc", q("misc")), fam("cast", q("cast")), fam("castdot", q("castdot")),
-    fam("moddef", q("moddef")), fam("dotuse", q("dotuse")), fam("conlet", q("conlet")), fam("funcbody", q("funcbody")), fam("funcsel", q("funcsel")), fam("funcshadow", q("funcshadow")), fam("sim", q("sim"), (2500, 70)),
+    fam("moddef", q("moddef")), fam("dotuse", q("dotuse")), fam("conlet", q("conlet")), fam("funcbody", q("funcbody")), fam("funcsel", q("funcsel")), fam("cmpdata", q("cmpdata")), fam("funcshadow", q("funcshadow")), fam("sim", q("sim"), (2500, 70)),
 ]
 THOROUGH = QUICK[:-1] + [fam("sim", q("sim"), (60000, 80))]
 
@@ -46,6 +46,17 @@ def classify(msg):
     t = re.sub(r"'[^']*'", "'_'", t)
     t = re.sub(r"compatible with \w+", "compatible with _", t)
     return "checker:" + t.strip()[:70]
+
+
+def mentions(x, e, op=None):
+    """does the program contain an expression of kind e (with operator op)?"""
+    if isinstance(x, list):
+        return any(mentions(y, e, op) for y in x)
+    if isinstance(x, dict):
+        if x.get("e") == e and (op is None or x.get("op") == op):
+            return True
+        return any(mentions(v, e, op) for v in x.values() if isinstance(v, (dict, list)))
+    return False
 
 
 def selects_two_fields_of_a_parameter(prog):
@@ -133,6 +144,8 @@ def work(h, cases):
             key = "checker:select-of-mixed-types" if c.get("clean") == "union" else classify(bo[1])
             if "not found in tuple" in bo[1] and selects_two_fields_of_a_parameter(c["prog"]):
                 key = "checker:parameter-pinned-to-its-first-selected-field"
+            if key == "checker:Incompatible List Shapes" and not mentions(c["prog"], "bin", "add"):
+                key += " (no + in the program)"     # the recorded finding is about list concatenation
             out.append({"status": "violation", "key": key, "text": text, "kind": "rejected",
                         "detail": {"build_error": bo[1][:400]}})
             continue
